@@ -1,0 +1,22 @@
+//go:build verif
+
+package name
+
+// Machine-checked contracts (comment-only; compiled only with -tags verif).
+// Same formula as the server's (*name).GetFolderNumber in app/name:
+// 1 + (xxhash64(sanctuary ++ realm ++ swamp) mod N). The ghost variables hin_ref/hin_off/hin_len
+// identify the byte string handed to xxhash, hout is the hash value it returned.
+
+//@ func (*name).GetIslandID(n, allIslands) (r)
+//@   property C20
+//@   nopanic
+//@   requires[n_positive] allIslands >= 1
+//@   modifies n.IslandNumber, ghost("hin_ref"), ghost("hin_off"), ghost("hin_len"), ghost("hout")
+//@   ensures[memo] old(n.IslandNumber) != 0 ==> r == old(n.IslandNumber)
+//@   ensures[range] old(n.IslandNumber) == 0 ==> 1 <= r && r <= allIslands
+//@   ensures[stored] r == n.IslandNumber
+//@   ensures[formula] old(n.IslandNumber) == 0 ==> r == ghost("hout") % allIslands + 1
+//@   ensures[hashed_len] old(n.IslandNumber) == 0 ==> ghost("hin_len") == len(n.SanctuaryID) + len(n.RealmName) + len(n.SwampName)
+//@   ensures[hashed_sanctuary] old(n.IslandNumber) == 0 ==> forall i in 0..len(n.SanctuaryID): bytesat(ghost("hin_ref"), ghost("hin_off") + i) == n.SanctuaryID[i]
+//@   ensures[hashed_realm] old(n.IslandNumber) == 0 ==> forall i in 0..len(n.RealmName): bytesat(ghost("hin_ref"), ghost("hin_off") + len(n.SanctuaryID) + i) == n.RealmName[i]
+//@   ensures[hashed_swamp] old(n.IslandNumber) == 0 ==> forall i in 0..len(n.SwampName): bytesat(ghost("hin_ref"), ghost("hin_off") + len(n.SanctuaryID) + len(n.RealmName) + i) == n.SwampName[i]
